@@ -11,21 +11,17 @@ COMBOS = [(4, 4), (1, 1), (0, 0), (3, 3), (2, 2), (1, 4), (4, 1), (1, 3), (0, 1)
 def build(tier, seed):
     lines, specs = [], []
     S = lambda name, fn, bound, what, **kw: specs.append(KSpec(name, MOD + fn, bound, what, **kw))
-    S("O13.1 unit interval", "c13_o1_unit_interval", "all finite f64 min<max, all finite values",
-      "normalize(v) is in [0,1] and never NaN", known=("range-nan", r"assertion failed: (!n.is_nan|n >= 0.0)"))
-    S("O13.1 endpoints", "c13_o1_endpoints", "all finite f64 min<max", "0 at and below min, 1 at and above max")
-    S("O13.2 monotone", "c13_o2_monotone", "all finite f64 min<max, a<=b", "a <= b => normalize(a) <= normalize(b)")
-    S("O13.3 formula", "c13_o3_formula", "all finite f64, range width >= 1e-300",
-      "equals clamp((v-min)/(max-min),0,1) as f32 within 1 f32 ulp", timeout=1500)
-    S("O13.4 degenerate range", "c13_o4_degenerate", "all finite f64 m, v", "min == max yields 0")
-    S("O13.4 total on any f64", "c13_o4_total_any_f64", "all f64 incl. NaN, +-inf, reversed",
-      "from_min_max is total; accepted ranges never panic and never give NaN for finite values; only !(min<=max) is rejected")
-    S("O13.7 integer range <2^32", "c13_o7_int_range_2p32", "|min|,|max| <= 2^32", "integer type range: endpoints map to 0/1, inside in [0,1]")
+    # O13.1/O13.2/O13.3/O13.7 and the float default range need the RESULT of a 64-bit float division for all operands.
+    # Proving those UNSAT by bit-blasting did not finish (CBMC/CaDiCaL > 25 min, z3 and cvc5 QF_FP > 5 min on the smallest
+    # of them); they are decided in the M-lane (props/c13 -> mirsym) with division axiomatised, see DESIGN §6 C13.
+    S("O13.4 degenerate range", "c13_o4_degenerate", "all finite f64 m, v", "min == max yields 0",
+      known=("range-nan", r"assertion failed: n == 0.0"))
+    S("O13.4 total, no panic", "c13_o4_total_nopanic", "all f64 incl. NaN, +-inf, reversed, equal",
+      "from_min_max is total and rejects exactly !(min<=max); normalize on an accepted range never panics")
     if tier == "thorough":
-        S("O13.7 integer range full i64", "c13_o7_int_range_full", "all i64 min<max", "integer type range: endpoints map to 0/1", timeout=3000)
+        S("O13.1 unit interval (bit-blasted)", "c13_o1_unit_interval", "all finite f64 min<max, all finite values",
+          "normalize(v) is in [0,1] and never NaN", timeout=6000)
     S("O13.5 absent attribute", "c13_o5_absent_attribute", "prototype without colour/intensity", "no range is selected")
-    S("O13.5 float default range", "c13_o5_float_default_range", "Single/Double without declared min/max, all finite values",
-      "fallback range f32/f64::MIN..MAX is usable: [0,1], endpoints, monotone")
     n = 0
     for tk in range(4):
         for (a, b) in COMBOS:
@@ -51,13 +47,17 @@ ASSUME = [
 ]
 
 
+def prepare(inst):
+    text = kani.read_inject("c13_simple.rs").replace("//@@INSTANCES@@", inst)
+    return klane.prepare("c13", {"pc_reader_simple.rs": [text]})
+
+
 def run(ctx):
     tier, seed = ctx["tier"], ctx["seed"]
     inst, specs = build(tier, seed)
     if ctx.get("only"):
         specs = [s for s in specs if ctx["only"] in s.name or ctx["only"] in s.fq]
-    text = kani.read_inject("c13_simple.rs").replace("//@@INSTANCES@@", inst)
-    d = klane.prepare("c13", {"pc_reader_simple.rs": [text]})
+    d = prepare(inst)
     runner = kani.KaniRunner(d, jobs=ctx["jobs"], timeout=900)
     obls = klane.evaluate("C13", d, runner, specs)
     return dict(obligations=obls, functions=FUNCTIONS, assumptions=ASSUME, samples=[o.as_json() for o in obls[:6]],
